@@ -771,8 +771,28 @@ func runSweep(section, list string, cases []kase, sec *vh.Section) {
 	for i := range evs {
 		lines[i] = evs[i].mline
 	}
+	// the text the theorems are about (renderLayout of the list's format) must be the text Go's Format produced
+	for _, e := range evs {
+		ft := features(e.k.Format)
+		t := time.Date(e.k.I.Y, time.Month(e.k.I.Mo), e.k.I.D, e.k.I.H, e.k.I.Mi, e.k.I.S, e.k.I.Ns, e.k.loc(ft))
+		zn, _ := t.Zone()
+		if len(zn) != 3 {
+			zn = "UTC"
+		}
+		fd := e.k.Frac
+		if fd == 0 {
+			fd = 3
+		}
+		lines = append(lines, fmt.Sprintf("render %s %d %d %d %d %d %d %d %d %d %d %d %s", list, e.idx, e.k.I.Y, e.k.I.Mo, e.k.I.D, e.k.I.H, e.k.I.Mi, e.k.I.S,
+			e.k.I.Ns, int(t.Weekday()), fd, e.k.I.OffMin, vh.HxS(zn)))
+	}
 	outs := askModel(lines)
 	for i, e := range evs {
+		if e.idx >= 0 {
+			if got := outs[len(evs)+i]; got != "text "+vh.HxS(e.k.Text) {
+				res.Mismatch(vh.Mismatch{Section: section, Function: "renderLayout (text of the instant in the format) vs time.Format", Input: e.k, Impl: "text " + vh.HxS(e.k.Text), Model: got})
+			}
+		}
 		mc := canonModel(outs[i])
 		res.Eval(sec, e.k.Format+"|"+e.in)
 		res.Dist(sec, "surround="+e.k.Surround)
